@@ -1,7 +1,7 @@
 (* C16 -- Only fully wired workflows run; RunTo executes exactly the upstream closure. *)
 From Coq Require Import List Arith Lia Bool String.
 Import ListNotations.
-From SP Require Import Skel Gen Expected Wiring Wiring2.
+From SP Require Import Skel Gen Expected Wiring Wiring2 Ready.
 
 (* T1: the wiring code *)
 Theorem C16_code_conforms :
@@ -25,6 +25,33 @@ Theorem C16_refuses_before_start :
   | _ => false
   end = true.
 Proof. vm_compute. reflexivity. Qed.
+
+(* the readiness check covers every process that is started, the process that replaces the sink as driver included
+   (readyToRun tests it explicitly: it may have been deleted from the map the check ranges over) *)
+Theorem C16_driver_is_checked :
+  existsb (fun s => match s with
+                    | SIf c [SReturn r] [] => String.eqb c "wf.driver != nil && wf.driver != WorkflowProcess(wf.sink) && !wf.driver.Ready()" && String.eqb r "false"
+                    | _ => false end) exp_Workflow_readyToRun = true.
+Proof. vm_compute. reflexivity. Qed.
+
+Theorem C16_started_are_checked : forall (noout : nat -> bool) (aliased : bool) (sel : list nat) (p : nat),
+  In p (started noout aliased sel) -> In p (checked noout aliased sel).
+Proof. intros noout aliased sel p. exact (Ready.started_are_checked noout (fun _ => true) aliased sel p). Qed.
+
+Theorem C16_unready_refused : forall (noout ready : nat -> bool) (aliased : bool) (sel : list nat) (p : nat),
+  In p (started noout aliased sel) -> ready p = false -> run_starts noout ready (checked noout aliased sel) aliased sel = [].
+Proof. exact Ready.unready_refused. Qed.
+
+Theorem C16_ready_runs : forall (noout ready : nat -> bool) (aliased : bool) (sel : list nat),
+  (forall p, In p sel -> ready p = true) -> run_starts noout ready (checked noout aliased sel) aliased sel = started noout aliased sel.
+Proof. exact Ready.ready_runs. Qed.
+
+Theorem C16_driver_unchecked_refuted_before_repair :
+  let noout := fun p => Nat.eqb p 1 in
+  let ready := fun p => negb (Nat.eqb p 1) in
+  run_starts noout ready (checked_before noout true [0; 1]) true [0; 1] = [0; 1] /\
+  run_starts noout ready (checked noout true [0; 1]) true [0; 1] = [].
+Proof. exact Ready.driver_unchecked_before_repair. Qed.
 
 (* the ready flag of a port means exactly "has a remote port", after any sequence of connect / disconnect operations *)
 Theorem C16_ready_flag : forall ops : list wop,
@@ -68,3 +95,8 @@ Print Assumptions C16_closure.
 Print Assumptions C16_runto_exact.
 Print Assumptions C16_closed_upward.
 Print Assumptions C16_example.
+Print Assumptions C16_driver_is_checked.
+Print Assumptions C16_started_are_checked.
+Print Assumptions C16_unready_refused.
+Print Assumptions C16_ready_runs.
+Print Assumptions C16_driver_unchecked_refuted_before_repair.
